@@ -582,6 +582,53 @@ pub fn run(tier: Tier) -> i32 {
             rep.violation(Violation { signature: "frame:verdict-depends-on-hit-content".into(), description: format!("{} distinct verdicts over {} hit contents of the same frame", distinct_verdicts.len(), group.len()), replay: json!({"group": bad}) });
         }
     }
+    // ---- the same verdicts from the real multi-threaded binary, shown and muted (muting changes the display only):
+    //      every 7th single-frame case without custom checks (all of the IB chip / bunch-counter variants)
+    let cli_cases: Vec<&Case> = cs
+        .iter()
+        .enumerate()
+        .filter(|(i, c)| c.frames.len() == 1 && c.key == stave_key() && c.want[0].is_some() && (i % 7 == 0 || c.label.starts_with("IB one lane") || c.label.starts_with("IB chip id") || c.label.starts_with("layer")))
+        .map(|(_, c)| c)
+        .collect();
+    let cli_res = par_map(&cli_cases, |_, c| {
+        let b = build(&c.cfg, &c.frames);
+        let bytes: Vec<u8> = b.packets.iter().flat_map(|(h, p, _)| h.iter().chain(p.iter()).copied().collect::<Vec<u8>>()).collect();
+        let mut out = Vec::new();
+        for mute in [false, true] {
+            let scratch = fp_harness::cli::Scratch::new("c13");
+            let st = scratch.join("st.json");
+            let mut a = vec![scratch.file("in.raw", &bytes).display().to_string(), "check".into(), "all".into(), "its-stave".into(), "-S".into(), st.display().to_string(), "-D".into(), "json".into()];
+            if mute {
+                a.push("-m".into());
+            }
+            let r = fp_harness::cli::Run::new(&a).cwd(&scratch.path).run();
+            let v: Option<serde_json::Value> = std::fs::read_to_string(&st).ok().and_then(|t| serde_json::from_str(&t).ok());
+            let codes: BTreeSet<String> = v
+                .as_ref()
+                .and_then(|v| v["error_stats"]["reported_errors"].as_array().cloned())
+                .unwrap_or_default()
+                .iter()
+                .filter_map(|m| m.as_str().and_then(rules::parse_error_message))
+                .filter(|(off, _)| *off == b.starts[0])
+                .flat_map(|(_, cs)| cs.into_iter().filter(|c| matches!(c.as_str(), "E72" | "E73" | "E74" | "E75")))
+                .collect();
+            out.push((r.crashed(), v.is_some(), codes));
+        }
+        out
+    });
+    for (c, r) in cli_cases.iter().zip(cli_res.iter()) {
+        let want = c.want[0].as_ref().unwrap();
+        for (mi, (crashed, have, codes)) in r.iter().enumerate() {
+            let what = if mi == 1 { "muted" } else { "shown" };
+            if *crashed || !*have {
+                rep.violation(Violation { signature: format!("frame:cli-run-failed:{what}"), description: format!("no statistics from the CLI run [{}]", c.label), replay: json!({"label": c.label}) });
+            } else if codes != want {
+                let kind = if want.difference(codes).next().is_some() { format!("missed:{}", want.difference(codes).next().unwrap()) } else { format!("false-alarm:{}", codes.difference(want).next().unwrap()) };
+                rep.violation(Violation { signature: format!("frame:cli-{what}:{kind}"), description: format!("real binary ({what}): frame codes at the frame start {:?}, documented rules give {:?} [{}]", codes, want, c.label), replay: json!({"label": c.label, "muted": mi == 1}) });
+            }
+        }
+    }
+    rep.cov("cli_frame_cases_shown_and_muted", json!(cli_cases.len()));
     rep.cov("states", json!(frames_total));
     rep.cov("transitions", json!(frames_total));
     rep.cov("traces_validated_against_impl", json!(cs.len()));
